@@ -101,6 +101,7 @@ func checkC02(p *load.Program, r *kit.Report) {
 	r.Rule("TYPE-RULE", "the time span is a subtraction in a signed 64-bit type", 1)
 	r.Rule("MEDIAN", "the median of three is chosen by compare-exchanges (0,2),(0,1),(1,2) on strict >, samples stored oldest-first, middle element returned; no library sort is reachable for count == 3", 4)
 	r.Rule("DEP-INDEX", "bitcoin.ConvertToDifficulty indexes b[1] with only length >= 1 established (recomputed from the dependency source); every call path from ProcessHeader must be behind a sanity guard on header.Bits>>24", 3)
+	r.Rule("DEP-FACT", "wire.BlockHeader.WorkIsValid (dependency body) is BlockHash().Value().Cmp(ConvertToDifficulty(h.Bits)) <= 0: the hash does not exceed the target its own bits encode", 1)
 	r.Assume("Repository.disableDifficulty is false in production (discharged by WRITERS)")
 
 	checkTestSwitches(p, r, "WRITERS", "disableDifficulty", "disableSplitProtection")
@@ -245,6 +246,7 @@ func checkC02(p *load.Program, r *kit.Report) {
 		r.Check(badR == "", "GUARD-DOM", "ProcessHeader/bits-refusal", posOf(p, bitsEq[0].If), "bits mismatch returns ErrInvalidTarget", badR)
 	}
 
+	checkWorkIsValid(p, r)
 	checkTarget(p, r)
 	checkMedian(p, r)
 	checkDepIndex(p, r, ph, g)
@@ -759,4 +761,47 @@ func checkDepIndex(p *load.Program, r *kit.Report, ph *ssa.Function, g *phGuards
 		r.Check(ok, "DEP-INDEX", key, posOf(p, s), "behind the bits size sanity guard",
 			"peer-controlled header.Bits reaches bitcoin.ConvertToDifficulty without a size check (bits with effective size 1 index out of range): "+path)
 	}
+}
+
+func checkWorkIsValid(p *load.Program, r *kit.Report) {
+	f := p.Func(load.WirePkg, "BlockHeader.WorkIsValid")
+	if f == nil || f.Blocks == nil {
+		r.Unknown("DEP-FACT", "WorkIsValid/body", "-", "dependency body not loaded")
+		return
+	}
+	bitsF := p.Field(load.WirePkg, "BlockHeader", "Bits")
+	bad := ""
+	n := 0
+	for _, ret := range kit.Returns(f) {
+		n++
+		b, ok := kit.RetOperand(ret, 0).(*ssa.BinOp)
+		if !ok {
+			bad = "result is not a comparison"
+			continue
+		}
+		cmp := isCallTo(b.X, bigInt+".Cmp")
+		z, isZ := kit.ConstInt(b.Y)
+		if cmp == nil || !isZ || z != 0 {
+			bad = "result is not Cmp(...) compared with 0"
+			continue
+		}
+		isHashVal := func(v ssa.Value) bool {
+			c := isCallTo(v, load.BitcoinPkg+".Hash32.Value")
+			return c != nil && kit.DependsOn(c.Call.Args[0], func(x ssa.Value) bool {
+				cc, ok := x.(*ssa.Call)
+				return ok && kit.CallID(cc) == load.WirePkg+".BlockHeader.BlockHash"
+			})
+		}
+		isTarget := func(v ssa.Value) bool {
+			c := isCallTo(v, load.BitcoinPkg+".ConvertToDifficulty")
+			return c != nil && loadOfField(c.Call.Args[0], bitsF)
+		}
+		switch {
+		case isHashVal(cmp.Call.Args[0]) && isTarget(cmp.Call.Args[1]) && (b.Op == token.LEQ):
+		case isTarget(cmp.Call.Args[0]) && isHashVal(cmp.Call.Args[1]) && (b.Op == token.GEQ):
+		default:
+			bad = "the hash value is not required to be <= the target of the header's own bits (op " + b.Op.String() + ")"
+		}
+	}
+	r.Check(bad == "" && n > 0, "DEP-FACT", "WirePkg.BlockHeader.WorkIsValid", "pkg/wire/blockheader.go", "hash value <= ConvertToDifficulty(own bits)", bad)
 }
